@@ -625,16 +625,19 @@ fn generate_state_char_arms(
     let mut state_ranges: Map<StateIdx, Vec<(char, char)>> = Default::default();
 
     for range in range_transitions.iter() {
+        // Splitting and subtracting ranges can leave an end point in the surrogate gap
+        let (range_start, range_end) = match range_scalar_bounds(range.start, range.end) {
+            Some(bounds) => bounds,
+            None => continue,
+        };
+
         match &range.value {
-            Trans::Trans(state_idx) => state_ranges.entry(*state_idx).or_default().push((
-                char::try_from(range.start).unwrap(),
-                char::try_from(range.end).unwrap(),
-            )),
+            Trans::Trans(state_idx) => state_ranges
+                .entry(*state_idx)
+                .or_default()
+                .push((range_start, range_end)),
             Trans::Accept(accepting) => {
                 let action_code = test_right_ctxs(ctx, accepting, default_rhs.clone());
-
-                let range_start = char::from_u32(range.start).unwrap();
-                let range_end = char::from_u32(range.end).unwrap();
 
                 let range_check = inclusive_range_contains(quote!(x), range_start, range_end);
                 state_char_arms.push(quote!(
@@ -934,8 +937,10 @@ fn generate_right_ctx_state_char_arms(
         value: next,
     } in range_transitions.iter()
     {
-        let start = char::try_from(*start).unwrap();
-        let end = char::try_from(*end).unwrap();
+        let (start, end) = match range_scalar_bounds(*start, *end) {
+            Some(bounds) => bounds,
+            None => continue,
+        };
 
         if states[next.0].accepting.is_empty() {
             state_ranges.entry(*next).or_default().push((start, end));
@@ -1017,6 +1022,29 @@ fn test_right_ctxs(
     }
 
     action_code
+}
+
+/// Scalar values delimiting the characters of an inclusive code point range: an end point inside
+/// the surrogate gap is moved to the nearest scalar value inside the range. `None` when the range
+/// has no scalar values.
+fn range_scalar_bounds(range_start: u32, range_end: u32) -> Option<(char, char)> {
+    let range_start = if (0xD800..=0xDFFF).contains(&range_start) {
+        0xE000
+    } else {
+        range_start
+    };
+    let range_end = if (0xD800..=0xDFFF).contains(&range_end) {
+        0xD7FF
+    } else {
+        range_end
+    };
+    if range_start > range_end {
+        return None;
+    }
+    Some((
+        char::try_from(range_start).unwrap(),
+        char::try_from(range_end).unwrap(),
+    ))
 }
 
 fn inclusive_range_contains(value: TokenStream, range_start: char, range_end: char) -> TokenStream {
